@@ -1,24 +1,24 @@
 package main
 
 import (
-	"math/big"
 	"encoding/json"
+	"math/big"
 
 	"github.com/cockroachdb/apd/v3"
 )
 
 // OEv: one comparison of two decimals by Decimal.Cmp, Decimal.CmpTotal and Context.Cmp.
 type OEv struct {
-	K    string `json:"k"` // "o"
-	X    Dec    `json:"x"`
-	Y    Dec    `json:"y"`
-	Cmp  int    `json:"cmp"` // Decimal.Cmp (99 when an operand is NaN: undefined)
-	Tot  int    `json:"tot"` // Decimal.CmpTotal
-	CRes Dec    `json:"cres"`
-	CFl  int    `json:"cfl"`
-	CErr string `json:"cerr"`
-	XA   Dec    `json:"xa"`
-	YA   Dec    `json:"ya"`
+	K     string `json:"k"` // "o"
+	X     Dec    `json:"x"`
+	Y     Dec    `json:"y"`
+	Cmp   int    `json:"cmp"` // Decimal.Cmp (99 when an operand is NaN: undefined)
+	Tot   int    `json:"tot"` // Decimal.CmpTotal
+	CRes  Dec    `json:"cres"`
+	CFl   int    `json:"cfl"`
+	CErr  string `json:"cerr"`
+	XA    Dec    `json:"xa"`
+	YA    Dec    `json:"ya"`
 	Panic string `json:"panic"`
 	Key   string `json:"key"`
 }
